@@ -196,10 +196,11 @@ type c17GReader struct {
 	gate    chan struct{}
 	exited  chan struct{}
 
-	done    chan struct{} // closed when the RemoveReader call started by the harness has returned
-	open    atomic.Bool   // removal in progress: callbacks no longer block in the gate
-	removed atomic.Bool   // RemoveReader has returned
-	late    atomic.Int32  // callbacks that started after RemoveReader returned
+	done     chan struct{} // closed when the RemoveReader call started by the harness has returned
+	openCh   chan struct{} // closed when the removal of this reader starts: callbacks no longer block in the gate
+	openOnce sync.Once
+	removed  atomic.Bool  // RemoveReader has returned
+	late     atomic.Int32 // callbacks that started after RemoveReader returned
 
 	// model
 	queue      []c17Item
